@@ -17,7 +17,7 @@ def mc_build(prop, tier, wd, seed):
         consts = dict(V=2, EMIN=1, EMAX=3, WSET={2, 4, 6}, WD=4, DSET={1, 3}, EXTV=3)
         timeout = 600
     else:
-        consts = dict(V=3, EMIN=1, EMAX=3, WSET={2, 4, 6}, WD=4, DSET={1, 2, 3}, EXTV=4)
+        consts = dict(V=3, EMIN=1, EMAX=3, WSET={2, 4}, WD=4, DSET={1, 3}, EXTV=3)
         timeout = 7200
     cfg = core.cfg_text(constants=consts, invariants=INVS[prop], properties=["OracleConst"],
                         overrides={"Skeletons": "MCSkeletons", "Decorate": "MCDecorate"})
@@ -75,6 +75,22 @@ def generate(tier, wd, seed, fname="table.ndjson"):
         if r.violated:
             raise core.ToolError("generator failed: " + r.out[-1500:])
         gen_states += r.distinct
+    # larger multigraphs than the enumeration reaches: random draws (5..8 edges, up to 6 labels) and the named catalogue
+    rruns = ([dict(V=5, EMIN=5, EMAX=7, WSET={6, 8, 10, 12}, WD=4, DSET={1, 2, 3}, EXTV=5, NSAMP=150),
+              dict(V=6, EMIN=8, EMAX=8, WSET={8, 10, 12}, WD=4, DSET={1, 2}, EXTV=6, NSAMP=12)] if tier == "quick" else
+             [dict(V=5, EMIN=5, EMAX=7, WSET={6, 8, 10, 12}, WD=4, DSET={1, 2, 3, 4}, EXTV=5, NSAMP=3000),
+              dict(V=6, EMIN=8, EMAX=9, WSET={8, 10, 12}, WD=4, DSET={1, 2, 3}, EXTV=6, NSAMP=150)])
+    for i, c in enumerate(rruns):
+        r = core.tlc("Gen_TableRand", core.cfg_text(constants=c, invariants=["Emit"]), "gen_rand_%d" % i, wd, workers=12, timeout=3600,
+                     coverage=False, replay_to=path, seed=seed + i)
+        gen_states += r.distinct
+        runs.append(dict(c, MODE="random"))
+    cat = dict(MODE='"cat"', V=3, EMIN=1, EMAX=7, LMIN=1, LMAX=5, WSET={4, 5, 6, 8, 10}, WD=4, DSET={1, 2, 3, 4, 5, 6}, PK=1, MSET={0, 1},
+               NROUT=1, NSAMP=8 if tier == "quick" else 80, STRIDE=1, OFFSET=0)
+    r = core.tlc("Gen_Routing", core.cfg_text(constants=cat, invariants=["Emit"]), "gen_cat", wd, workers=12, timeout=3600, coverage=False,
+                 replay_to=path, seed=seed)
+    gen_states += r.distinct
+    runs.append(dict(cat, MODE="catalogue"))
     n = core.count_lines(path)
     if n < 200:
         raise core.ToolError("vacuity guard: generator emitted only %d behaviours" % n)
